@@ -60,10 +60,17 @@ func (rp *RuleParser) ParseVariables(vars string) error {
 			// we wont support pipe for xpath, maybe later
 			if c != '|' {
 				// we don't want to miss the last character
-				if curr == 0 {
+				switch {
+				case curr == 0:
 					curVar = append(curVar, c)
-				} else if curr != 2 && c != '/' {
-					// we don't want the last slash if it's a regex
+				case curr == 2:
+					// the list ends inside a regex key: its closing slash is the only character
+					// that may come last (it is not part of the expression)
+					if c != '/' || isEscaped {
+						return fmt.Errorf("unclosed regex key: /%s%c", string(curKey), c)
+					}
+				default:
+					// the last character of a plain key or of an xpath belongs to it, also a slash (ARGS:a/)
 					curKey = append(curKey, c)
 				}
 			}
@@ -94,6 +101,10 @@ func (rp *RuleParser) ParseVariables(vars string) error {
 						// TODO fix here
 						return fmt.Errorf("unclosed quote: %q", string(curKey))
 					}
+				}
+				// the closing quote ends the target: only '|' (or the end of the list) may follow
+				if i+2 < len(vars) && vars[i+2] != '|' {
+					return fmt.Errorf("unexpected %q after the quoted regex key /%s/", vars[i+2], string(curKey))
 				}
 				// we skip one additional character
 				i += 2
